@@ -49,7 +49,10 @@ static J gen_oceanic(Chooser &ch)
         {
           J rd = J::arr();
           const int n = static_cast<int>(ch.range(2, 4));
-          for (int i = 0; i < n; ++i) rd.push(jp(xr + ch.lattice(-600e3, 600e3, 1e3), m.kernel[1] + (i - (n - 1) / 2.0) * 3000e3));
+          const bool sharp = ch.chance(50); // sharper kinks closer to the plate: the closest ridge point is often not on the first segment a point projects onto
+          for (int i = 0; i < n; ++i)
+            rd.push(sharp ? jp(m.kernel[0] + (xr - m.kernel[0]) * 0.6 + ch.lattice(-900e3, 900e3, 1e3), m.kernel[1] + (i - (n - 1) / 2.0) * 1800e3)
+                          : jp(xr + ch.lattice(-600e3, 600e3, 1e3), m.kernel[1] + (i - (n - 1) / 2.0) * 3000e3));
           t["ridge coordinates"] = J::arr({rd});
         }
     }
@@ -124,6 +127,33 @@ static Result check_oceanic(const J &c)
           if (tg2 != -1 && T2 > T + tau + 1e-6)
             return Result::fail("oceanic-not-monotone-in-age/" + kind, "oceanic '" + kind + "': temperature rises from " + fmt(T) + " to " + fmt(T2) + " when moving 50 km away from the ridge at depth " + fmt(depth));
           r.classes.push_back("age pair");
+        }
+      // any ridge polyline, constant spreading velocity: the age grows with the distance to the closest point of the polyline
+      if ((kind == "half space model" || kind == "plate model") && !c.at("straight").boolean() && t.at("bottom temperature").num() >= 0 && t.at("spreading velocity").is_num())
+        {
+          const J &rd = t.at("ridge coordinates")[0];
+          auto ridge_distance = [&](long double px, long double py) {
+            long double best = -1;
+            for (size_t i = 0; i + 1 < rd.size(); ++i)
+              {
+                const long double ax = rd[i][0].num(), ay = rd[i][1].num(), ex = rd[i + 1][0].num() - ax, ey = rd[i + 1][1].num() - ay;
+                const long double s = std::max(0.0L, std::min(1.0L, ((px - ax) * ex + (py - ay) * ey) / (ex * ex + ey * ey)));
+                const long double d = std::hypot(px - (ax + s * ex), py - (ay + s * ey));
+                if (best < 0 || d < best) best = d;
+              }
+            return static_cast<double>(best);
+          };
+          const double x2 = x + ((static_cast<long long>(std::fabs(x)) / 1000) % 2 ? 60e3 : -60e3), y2 = y + ((static_cast<long long>(std::fabs(y)) / 1000) % 2 ? 45e3 : -45e3);
+          const double da = ridge_distance(x, y), db = ridge_distance(x2, y2);
+          double tg2;
+          const double T2 = T_at(x2, y2, depth, tg2);
+          if (tg2 != -1 && std::fabs(da - db) > 1e3)
+            {
+              const bool farther = db > da;
+              if (farther ? T2 > T + tau + 1e-6 : T2 < T - tau - 1e-6)
+                return Result::fail("oceanic-not-monotone-in-age/" + kind, "oceanic '" + kind + "' with ridge " + rd.dump() + ": at depth " + fmt(depth) + " the temperature is " + fmt(T) + " at (" + fmt(x) + "," + fmt(y) + "), " + fmt(da) + " m from the ridge, and " + fmt(T2) + " at (" + fmt(x2) + "," + fmt(y2) + "), " + fmt(db) + " m from the ridge: the older lithosphere is the warmer one");
+              r.classes.push_back("age pair (ridge polyline)");
+            }
         }
       // boundary temperatures: the top temperature at the model's own top (= the surface here), the bottom temperature at a constant max depth
       double tg0;
